@@ -17,4 +17,11 @@ theorem holds_window_success (s : State) (h : Reachable Facts.muxBroker s) (n : 
         s'.streams s.nStreams = some ⟨n, .taken s.nAccs⟩) :=
   dispense_reaches_its_server _ facts_good s h n hfresh hrun hq
 
+/-- the byte-level facts of `Dial`/`Run`/`Accept` at the current source -/
+theorem frame_good : Facts.muxFrame.Good := by decide
+
+theorem holds_app_bytes_complete (hdr app : Bytes) (hh : hdr.length = 4) (k : Nat) :
+    MuxFrame.readHeader Facts.muxFrame ((MuxFrame.sent hdr app).take (4 + k)) ((MuxFrame.sent hdr app).drop (4 + k)) = some (hdr, app) :=
+  app_bytes_complete _ frame_good hdr app hh k
+
 end GoPlugin.Instance.C06
